@@ -339,7 +339,9 @@ loop:
 			sendFrame(ttlv.MarshalTTLV(&kmip.ResponseMessage{Header: kmip.ResponseHeader{ProtocolVersion: kmip.V1_4, TimeStamp: time.Unix(1700000000, 0).UTC(), BatchCount: 0}}), 1, nil, "")
 		case "corrupt":
 			nreq++
-			prefix := fmt.Sprintf("%s.r%d", name, nreq)
+			// ids of a request that is about to be altered live in their own namespace ("x..."): a one-byte
+			// alteration can then never turn them into the id of a well-formed request ("c...")
+			prefix := fmt.Sprintf("x%s.r%d", name[1:], nreq)
 			frame := ttlv.MarshalTTLV(buildRequest(a.Req, prefix))
 			pos := 8 + a.Pos%(len(frame)-8)
 			frame[pos] = byte(a.Val)
@@ -521,7 +523,7 @@ func execC08(x *X, scAny any) {
 				continue
 			}
 			if o.kind == "request" {
-				checkBatch(x, "C08", o.rs, o.prefix, allVersions, resp, w.trace)
+				checkBatch(x, "C08", o.rs, o.prefix, allVersions, resp, w.trace, rc.conn.Name[:len(rc.conn.Name)-2]+".s.peer")
 			}
 		}
 		if rc.sc.Canary && rc.doneAt > time.Second {
